@@ -271,6 +271,10 @@ def expand(g, s, helper_n):
         g.prods.append(Prod(h, [], ("list", []), text="(eps)"))
         g.prods.append(Prod(h, [h] + syms, ("list", [("elems", 0), ("item", 1 + sel_pos)]), text=s))
         return h
+    m = re.match(r"^(\w+)\*$", s)
+    if m:
+        # bare `X*`: zero or more X, value = the list of X
+        return expand(g, f"(<{m.group(1)}>)*", helper_n)
     m = re.match(r"^(\w+)\?$", s)
     if m:
         helper_n[0] += 1
